@@ -2,6 +2,7 @@
 from .. import gen, e1, inv
 from ..oracles import V
 from .c01 import InvProp
+from .base import bump
 
 
 class C09(InvProp):
@@ -65,7 +66,16 @@ class C09(InvProp):
         return None
 
     def oracle(self, scn, out, c):
-        return inv.c09(scn, out, out.tables, c)
+        viol = inv.c09(scn, out, out.tables, c)
+        if not viol and c.get('c09.steps_with_isolation', 0) > 0:
+            # "reconnecting an isolated part restores normal results": normal results balance at every junction (the C01 invariant,
+            # evaluated here on worlds whose districts disconnect and reconnect, staged reconnections included)
+            c2 = {}
+            for x in inv.c01(scn, out.tables, c2, rn=inv.rnorms(out)):
+                if x['oracle'] == 'c01.junction_balance':
+                    viol.append(V('c09.results_after_isolation_do_not_balance', x['sig'], x['detail']))
+            bump(c, 'c09.balance_checked_worlds')
+        return viol
 
     def nontrivial(self, scn, out, c):
         return c.get('c09.steps_with_isolation', 0) > 0
